@@ -89,7 +89,7 @@ def run_shard(shard, tier, seed):
     t = shard['type']
     n = genhist.nadd_for(t, tier)
     m = 1 if tier == 'quick' else 2
-    cores = [genhist.with_final_str(genhist.core_forward_first(t, 2)), genhist.with_final_str(genhist.core_additions(t, n)), genhist.with_final_str(genhist.core_last_twice(t, n)), genhist.core_toggled(t, 1 if len(ref.DFAS[t].alphabet) > 8 else 2), genhist.with_final_str(genhist.core_mixed(t, m, ('rm', 'rep', 'fwd', 'set')))]
+    cores = [genhist.with_final_str(genhist.core_forward_first(t, 2)), genhist.with_final_str(genhist.core_additions(t, n)), genhist.with_final_str(genhist.core_last_twice(t, n)), genhist.core_toggled(t, 1 if len(ref.DFAS[t].alphabet) > 8 else 2), genhist.with_final_str(genhist.core_mixed(t, m, ('rm', 'rep', 'repa', 'fwd', 'set')))]
     halos = [('mixed', 60, 10), ('failure', 30, 10), ('removal', 40, 10), ('serialise', 60, 10), ('shortcut', 20, 8), ('guided', 40, 12)] if tier == 'quick' else [('mixed', 1000, 14), ('failure', 500, 12), ('removal', 600, 14), ('serialise', 1000, 14), ('shortcut', 300, 10), ('guided', 800, 25)]
     return _histcheck.run(shard, tier, seed, PROPERTY, cores, halos, PROPS, shrink_per_presig=6)
 
